@@ -195,8 +195,7 @@ def Req (w : World G α) (x : Bin × Option (G × Params) × Row α) : Prop :=
 def Refines (w : World G α) (x : Bin × Option (G × Params) × Row α) : Prop :=
   ∃ g p, x.2.1 = some (g, p) ∧ spec w g p x.1 = some x.2.2
 
-theorem run_refines (w : World G α) (hWF : ∀ g p, (w.symOf g p).WF)
-    (hsame : ∀ g g', w.sameDataVoxelOrigin g g' = true → g = g')
+theorem run_refines [DecidableEq G] (w : World G α) (hWF : ∀ g p, (w.symOf g p).WF)
     (evs : List (Ev G)) : ∀ (s : PM G α) (cfg : Option (G × Params)), Inv w s cfg →
       (∀ x ∈ s.run w cfg evs, Req w x) → ∀ x ∈ s.run w cfg evs, Refines w x := by
   induction evs with
@@ -275,17 +274,17 @@ theorem run_refines (w : World G α) (hWF : ∀ g p, (w.symOf g p).WF)
         | some gp =>
           obtain ⟨g', p'⟩ := gp
           simp only [hact] at hsu
-          by_cases hskip : (s.alreadySetup && w.sameDataVoxelOrigin g' g) = true
-          · -- the early return
+          by_cases hskip : (s.alreadySetup && decide (g' = g)) = true
+          · -- the early return: same parameters (`already_setup`) and same geometry
             rw [if_pos hskip] at hsu
             simp only [Except.ok.injEq] at hsu
             subst hsu
-            simp only [Bool.and_eq_true] at hskip
+            simp only [Bool.and_eq_true, decide_eq_true_eq] at hskip
             obtain ⟨g'', hg''⟩ := hinv.setup hskip.1
             rw [hact] at hg''
             simp only [Option.some.injEq, Prod.mk.injEq] at hg''
             obtain ⟨rfl, rfl⟩ := hg''
-            have : g' = g := hsame g' g hskip.2
+            have : g' = g := hskip.2
             subst this
             exact ⟨hact, hinv.setup, fun g p ha => hinv.cache g p ha⟩
           · rw [if_neg hskip] at hsu
